@@ -59,15 +59,43 @@ def _read(text):
     return list(CSVWorkloadReader(io.StringIO(text)).batch_by_pipeline())
 
 
+class _TickWorkload:
+    """Workload stub for WorkloadTraceGenerator.generate_rows: hands out scripted pipelines at scripted ticks."""
+    def __init__(self, by_tick):
+        self.by_tick, self.t = by_tick, 0
+
+    def run_one_tick(self):
+        out = self.by_tick.get(self.t, [])
+        self.t += 1
+        return out
+
+
+def _write_via_generator(p1, t1, p2, t2):
+    by_tick = {}
+    by_tick.setdefault(t1, []).append(p1)
+    by_tick.setdefault(t2, []).append(p2)
+    buf = io.StringIO()
+    w = CSVWorkloadWriter(buf)
+    for row in WorkloadTraceGenerator(_TickWorkload(by_tick), 1, 4).generate_rows():
+        w.write_row(row)
+    return buf.getvalue()
+
+
 def write_read(n1, e0, e1, e2, e3, e4, e5, prio1, prio2, l0, l1, l2, l3, k0, k1, k2, k3, v0, v1, v2, v3,
-               arr1, arr2, n2=1, want=""):
+               arr1, arr2, n2=1, gen_t1=-1, gen_t2=0, same_id=False, want=""):
     """Write two pipelines (the first with n1 <= 4 operators and an arbitrary DAG), read the text back."""
     bits = [e0, e1, e2, e3, e4, e5][:n_edge_bits(n1)]
     p1, _ = _mk("a", prio1, n1, bits, [l0, l1, l2, l3], [k0, k1, k2, k3], [v0, v1, v2, v3])
-    p2, _ = _mk("b", prio2, n2, chain_bits(n2), [l3, l2, l1, l0], [k3, k2, k1, k0], [v3, v2, v1, v0])
+    p2, _ = _mk("a" if same_id else "b", prio2, n2, chain_bits(n2), [l3, l2, l1, l0], [k3, k2, k1, k0], [v3, v2, v1, v0])
     a1, a2 = MENU[arr1], MENU[arr2]
+    if gen_t1 >= 0:
+        # through the writer's own entry point: pipelines (whose own ids may coincide, e.g. two generators merged) handed
+        # out by a workload at ticks gen_t1 <= gen_t2 of a 4-tick run at 1 tick/s, so the arrivals are the tick numbers
+        if gen_t2 < gen_t1:
+            return ""
+        a1, a2 = float(gen_t1), float(gen_t2)
     try:
-        text = _write([(a1, p1), (a2, p2)])
+        text = _write([(a1, p1), (a2, p2)]) if gen_t1 < 0 else _write_via_generator(p1, gen_t1, p2, gen_t2)
         back = _read(text)
     except Exception as e:
         return f"C14:round_trip_raised:{exc_name(e)}"
@@ -106,8 +134,8 @@ def write_read(n1, e0, e1, e2, e3, e4, e5, prio1, prio2, l0, l1, l2, l3, k0, k1,
         return "C14:rewrite_changed_row_count"
     for x, y in zip(r1, r2):
         for col in x:
-            if col == "arrival_seconds":
-                continue
+            if col == "arrival_seconds" or (gen_t1 >= 0 and col == "pipeline_id"):
+                continue        # (the second write numbers the pipelines itself; the ids the first writer chose are its own business)
             if x[col] != y[col]:
                 try:
                     same = float(x[col]) == float(y[col])
